@@ -35,14 +35,13 @@ theorem fact_parseJWS :
     Facts.C17.parseJWSCountRule = .exactlyOne ∧ Facts.C17.parseJWSVerifyMode = .library ∧
     Facts.C17.parseJWSErrConds = ["err != nil", "len(signatures) != 1", "!jwx.IsAlgorithmSupported(alg)", "err != nil"] := by decide
 
-/-- dpop.Parse: its error exits in order (one signature, alg on the shared allow-list, typ, jwk present, jwk not private,
-    jwt.ParseString WithKey(alg, jwk), claims) -/
+/-- dpop.Parse: its first seven error exits, in order, are the signature discipline (parse, one signature, alg on the
+    shared allow-list, typ, jwk present, jwk not private, jwt.ParseString WithKey(alg, jwk)); what follows are claim
+    checks (C19's concern, summarised by the harness as one verdict) -/
 theorem fact_dpopParse :
-    Facts.C17.dpopParseErrConds =
+    Facts.C17.dpopParseErrConds.take 7 =
       ["err != nil", "len(message.Signatures()) != 1", "!slices.Contains(jwx.SupportedAlgorithms, headers.Algorithm())",
-       "headers.Type() != \"dpop+jwt\"", "headers.JWK() == nil", "jwkIsPrivateKey(headers.JWK())", "err != nil",
-       "token.IssuedAt().IsZero()", "v, ok := token.Get(HTUKey); !ok || v == \"\"", "v, ok := token.Get(HTMKey); !ok || v == \"\"",
-       "token.JwtID() == \"\"", "len(token.JwtID()) > maxJtiLength"] ∧
+       "headers.Type() != \"dpop+jwt\"", "headers.JWK() == nil", "jwkIsPrivateKey(headers.JWK())", "err != nil"] ∧
     Facts.C17.dpopTyp = "dpop+jwt" ∧ "jwt.WithKey" ∈ Facts.C17.dpopParseCalls := by decide
 
 /-- dag.ParseTransaction: 0 and > 1 signatures rejected, the steps in order, alg allow-list, kid xor jwk; the verifier
@@ -109,8 +108,10 @@ theorem parseJWS_splitCompact_mode_accepts_two_uncovered :
   refine ⟨{ resolve := fun _ => some "K", embeddedKey := fun _ => none, verifies := fun _ _ _ => false, verifiesSplit := fun _ _ _ => true },
     { parses := true, splitOK := true,
       sigs := [{ alg := "ES256", kid := "k", jwk := .absent, hdrs := [], typ := "" }, { alg := "ES256", kid := "k", jwk := .absent, hdrs := [], typ := "" }] },
-    _, rfl, rfl, ?_⟩
-  decide
+    [{ key := "K", src := .resolver "k", alg := "ES256", idx := 0, overSigningInput := false },
+     { key := "K", src := .resolver "k", alg := "ES256", idx := 1, overSigningInput := false }], ?_, rfl, ?_⟩
+  · decide
+  · decide
 
 /-- dpop.Parse: the key is the embedded jwk (mandated by RFC 9449), it is present and not a private key; with the jwx
     contract "an asymmetric algorithm never verifies with an octet key" it is a public key -/
@@ -162,7 +163,9 @@ theorem accept_dagTx_of_fact (hf : Facts.C17.dagRejectsPrivateJwk = true) : dagT
 theorem dagTx_without_private_check_accepts_private_jwk :
     ∃ E j vs s, dagTx Facts.C17.dagAllowedAlgs false E true j = .accept vs ∧ j.sigs = [s] ∧ s.jwk = .priv := by
   refine ⟨{ resolve := fun _ => none, embeddedKey := fun _ => some "E", verifies := fun _ _ _ => true, verifiesSplit := fun _ _ _ => false },
-    { parses := true, splitOK := true, sigs := [{ alg := "ES256", kid := "", jwk := .priv, hdrs := ["jwk"], typ := "" }] }, _, _, ?_, rfl, rfl⟩
+    { parses := true, splitOK := true, sigs := [{ alg := "ES256", kid := "", jwk := .priv, hdrs := ["jwk"], typ := "" }] },
+    [{ key := "E", src := .embedded 0, alg := "ES256", idx := 0, overSigningInput := true }],
+    { alg := "ES256", kid := "", jwk := .priv, hdrs := ["jwk"], typ := "" }, ?_, rfl, rfl⟩
   decide
 
 /-- internal-API bearer token: exactly one signature, allow-listed algorithm, no key-carrying header, verified with a
@@ -183,7 +186,8 @@ theorem apiToken_atLeastOne_rule_accepts_two_signatures :
       a.sigs.length = 2 := by
   refine ⟨{ parses := true, sigs := [{ alg := "EdDSA", hdrs := [] }, { alg := "ES256", hdrs := [] }], verifies := [true],
             claims := { jti := some true, iat := some 900, nbf := some 900, exp := some 2000, aud := some ["aud"],
-                        iss := some "alice", sub := some "operator" } }, _, ?_, rfl⟩
+                        iss := some "alice", sub := some "operator" } },
+          [{ key := "authorized-key", src := .authorizedKeys 0, alg := "EdDSA", idx := 0, overSigningInput := true }], ?_, rfl⟩
   decide
 
 /-- jar.validate: ParseJWT's discipline, and the signer key is one the client publishes under that kid -/
